@@ -16,7 +16,7 @@ from verif.specs import sx
 from verif.specs.sx import X
 
 LEVEL = 'other'
-EXPECTED_MIN = {'quick': 12, 'thorough': 16}
+EXPECTED_MIN = {'quick': 22, 'thorough': 30}
 EXPLANATION = ('PROVED stage by stage with symbolic inputs at each stage boundary: dof axes in the subtree-CoM frame (cdof) for hinge / slide / free dofs and stacks under an arbitrary '
                'parent pose (exact normal form); link velocities cd = sum of ancestor dofs, cdofd = cd x cdof; link inertias about the tree CoM (cinr) = R I R^T + m(|h|^2 E - h h^T) with first moment m h, whose quadratic form on any motion is the sum of squares (R^T w).I(R^T w) + m|v - h x w|^2; mass.matrix = composite-rigid-body form with the ancestor mask, '
                'symmetry and armature; dynamics.inverse = recursive Newton-Euler form; passive force -k q - d qd; qf_smooth = passive - bias + tau; integrator: (M + dt D) qdd = '
@@ -493,7 +493,15 @@ def bounded(tier):
 def obligations(tier):
   Q, Th = ('quick', 'thorough'), ('thorough',)
   obs = [cdof('', 'root', Q), cdof('h', 'root', Q), cdof('s', 'root', Q), cdof('h', 'free', Q), cdof('s', 'free', Q), cdof('sh', 'root', Q), cdof('hs', 'root', Th), cdof('hh', 'free', Th),
-         cdof('ss', 'root', Th)]
+         cdof('ss', 'root', Th), cdof('hsh', 'root', Q), cdof('shh', 'root', Q), cdof('hhs', 'root', Q), cdof('sss', 'root', Th), cdof('hhh', 'root', Th)]
+  # transform_com moves every dof axis with Transform.do / inv_do: the helpers are what they claim to be (C09's obligations, carried here as premises so that a slip in
+  # one of them is reported against C02 as well)
+  from verif.contracts import C09
+  want = ('C09/Transform.do[Motion]/spec', 'C09/Transform.do[Motion]/inverse', 'C09/Transform.do[Inertia]/spec', 'C09/Inertia.mul/spec', 'C09/Motion.cross/dual', 'C09/Motion.cross/antisymmetric')
+  for o in C09.obligations(tier):
+    if o.id in want:
+      o.id = o.id.replace('C09/', 'C02/premise/')
+      obs.append(o)
   for name in FORESTS:
     t = Q if name in ('chain3[1,2,1]', 'two-trees[f,1;2]') else Th
     obs.append(crb_form(name, t))
